@@ -299,18 +299,18 @@ func hbCase(r *rand.Rand, o *hout.Out) {
 }
 
 // C09: inbound arrival patterns
-func probeCase(r *rand.Rand, o *hout.Out) {
+func probeCase(r *rand.Rand, o *hout.Out, idx int) {
 	side := r.Intn(2)
 	sr := newSess(side)
-	kind := r.Intn(4)
+	kind := idx % 4 // every run covers every arrival pattern; the answer type below cycles too
 	var inbound []time.Duration // offsets of inbound messages after logon
 	var dur time.Duration
 	switch kind {
 	case 0: // total silence
 		dur = 2*T9 + P9 + 400*time.Millisecond
-	case 1: // an answer somewhere in the second period
+	case 1: // an answer somewhere in the second period, then silence again: a new probe, not a disconnect
 		inbound = append(inbound, T9+P9+time.Duration(200+r.Intn(1400))*time.Millisecond)
-		dur = inbound[0] + 1500*time.Millisecond
+		dur = inbound[0] + T9 + P9 + 500*time.Millisecond
 	case 2: // silence ending just before the first deadline
 		inbound = append(inbound, T9-time.Duration(60+r.Intn(200))*time.Millisecond)
 		dur = inbound[0] + 1500*time.Millisecond
@@ -322,13 +322,25 @@ func probeCase(r *rand.Rand, o *hout.Out) {
 	}
 	q := 2
 	echoWanted := 0
+	logonSeq := 0
 	for _, at := range inbound {
 		time.Sleep(time.Until(sr.t0.Add(at)))
-		mt := []string{"0", "V", "1"}[r.Intn(3)]
+		mt := []string{"0", "V", "1", "A"}[r.Intn(4)]
+		if kind == 1 {
+			mt = []string{"A", "0", "1", "V"}[(idx/4)%4]
+		}
+		if kind != 1 && mt == "A" {
+			mt = "V"
+		}
 		if mt == "1" {
 			echoWanted++
 		}
-		sr.h.ServeIncoming(frame(fmt.Sprintf("35=%s\x0149=P\x0156=M\x0134=%d\x0152=20240101-00:00:00.000\x01112=echo%d\x01", mt, q, q)))
+		if mt == "A" { // a further Logon while logged on (our own TestRequest pending): exactly one Reject by sequence number
+			logonSeq = q
+			sr.h.ServeIncoming(frame(fmt.Sprintf("35=A\x0149=P\x0156=M\x0134=%d\x0152=20240101-00:00:00.000\x0198=0\x01108=1\x01", q)))
+		} else {
+			sr.h.ServeIncoming(frame(fmt.Sprintf("35=%s\x0149=P\x0156=M\x0134=%d\x0152=20240101-00:00:00.000\x01112=echo%d\x01", mt, q, q)))
+		}
 		q++
 	}
 	time.Sleep(time.Until(sr.t0.Add(dur)))
@@ -360,6 +372,40 @@ func probeCase(r *rand.Rand, o *hout.Out) {
 	}
 	o.Sample("C09", fmt.Sprintf("%s -> probes at %v, disconnect at %v", desc, probes, disc))
 	within := func(x, lo, hi time.Duration) bool { return x >= lo && x <= hi }
+	// C16: the further Logon was answered by exactly one Reject referencing its sequence number
+	if logonSeq > 0 {
+		rejects := 0
+		for _, m := range outs {
+			if m.mt == "3" && field(m.raw, "45") == strconv.Itoa(logonSeq) {
+				rejects++
+			}
+		}
+		if rejects != 1 {
+			o.Fail("C16", "logon-while-logged-on-not-rejected-once", fmt.Sprintf("%s: %d Rejects with RefSeqNum=%d; outs=%v", desc, rejects, logonSeq, outs))
+		}
+		o.Nontrivial("C16", desc)
+		o.Nontrivial("C06", desc)
+	}
+	// C08: while logged on (also while probing) the session is never silent for longer than N + N/10 + slack
+	end := dur
+	if disc != 0 {
+		end = disc
+	}
+	var prevOut time.Duration
+	for _, m := range outs {
+		if m.at > end {
+			break
+		}
+		if prevOut > 0 && m.at-prevOut > N+P8+slack {
+			o.Fail("C08", "silent-too-long", fmt.Sprintf("%s: %v between outbound messages while logged on (limit %v); outs=%v", desc, m.at-prevOut, N+P8+slack, outs))
+			break
+		}
+		prevOut = m.at
+	}
+	if prevOut > 0 && end-prevOut > N+P8+slack {
+		o.Fail("C08", "silent-too-long", fmt.Sprintf("%s: nothing sent during the last %v before %v; outs=%v", desc, end-prevOut, end, outs))
+	}
+	o.Nontrivial("C08", desc)
 	switch kind {
 	case 0:
 		if len(probes) != 1 || !within(probes[0], T9-5*time.Millisecond, T9+P9+slack) {
@@ -368,11 +414,12 @@ func probeCase(r *rand.Rand, o *hout.Out) {
 			o.Fail("C09", "disconnect-timing", fmt.Sprintf("%s: probe at %v, disconnect at %v (stopped=%v cancelled=%v), expected %v..%v after the probe", desc, probes[0], disc, stopped, cancelled, T9, T9+P9+slack))
 		}
 	case 1:
+		// the answer (of any type) cancels the pending disconnect; the following silence is probed again
+		if len(probes) != 2 || !within(probes[1]-inbound[0], T9-5*time.Millisecond, T9+P9+slack) {
+			o.Fail("C09", "no-new-probe-after-answer", fmt.Sprintf("%s: TestRequests at %v, expected a second one %v..%v after the answer", desc, probes, T9, T9+P9+slack))
+		}
 		if disc != 0 || stopped {
 			o.Fail("C09", "disconnected-despite-answer", fmt.Sprintf("%s: disconnect at %v", desc, disc))
-		}
-		if len(probes) < 1 {
-			o.Fail("C09", "probe-missing", desc)
 		}
 	case 2, 3:
 		if kind == 3 && (len(probes) != 0 || disc != 0) {
@@ -448,7 +495,14 @@ func main() {
 		go func() { defer wg.Done(); preauthCase(rr4, o) }()
 		go func() { defer wg.Done(); hbCase(rr, o) }()
 		rr2 := rand.New(rand.NewSource(r.Int63()))
-		go func() { defer wg.Done(); probeCase(rr2, o) }()
+		go func(i int) {
+			defer wg.Done()
+			for k := 0; k < 4; k++ {
+				wg.Add(1)
+				rk := rand.New(rand.NewSource(rr2.Int63()))
+				go func(k int) { defer wg.Done(); probeCase(rk, o, 4*i+k) }(k)
+			}
+		}(i)
 		rr3 := rand.New(rand.NewSource(r.Int63()))
 		go func() {
 			defer wg.Done()
